@@ -406,7 +406,22 @@ func (wt *watcher) transition(prev, cur *storeView) {
 	// A competing branch displaced headers.
 	wt.nReorg++
 	w.rc.Probe("reorg_adopted")
-	if ct.CumWork.Cmp(pt.CumWork) <= 0 {
+	// A branch that forks below a hard-coded checkpoint and does not contain
+	// it can never satisfy that checkpoint: headers displaced by a branch
+	// that reaches the checkpoint are "discarded because their branch failed
+	// a checkpoint", whatever the work so far (the client stores a batch up
+	// to the checkpoint first and asks for the rest).
+	ontoCheckpoint := false
+	for _, cp := range w.params.Checkpoints {
+		if cp.Height > fork.Height && cp.Height <= ct.Height && int(cp.Height) < len(cur.blks) && cur.blks[cp.Height] != nil &&
+			cur.blks[cp.Height].Hash == *cp.Hash {
+			ontoCheckpoint = true
+		}
+	}
+	if ontoCheckpoint && ct.CumWork.Cmp(pt.CumWork) <= 0 {
+		w.rc.Probe("reorg_onto_checkpointed_chain_with_less_work_so_far")
+	}
+	if !ontoCheckpoint && ct.CumWork.Cmp(pt.CumWork) <= 0 {
 		rel := "less"
 		if ct.CumWork.Cmp(pt.CumWork) == 0 {
 			rel = "equal"
